@@ -6,6 +6,10 @@
 (* the residual), fit tilt in place, take a fitted copy, or deep-copy the plane.  Whatever sequence   *)
 (* of such steps leads to a state, an observation (multiply + propagate) depends only on the          *)
 (* effective OPD of the observed plane, and acting on one plane never changes another.                *)
+(* A wavefront that PASSED a plane (Pass) is held by the caller: what it shows later (ObserveHeld) is   *)
+(* the plane as it was then - whatever the caller has done to the plane since: trimmed the tilt that  *)
+(* fit_tilt recorded on it (TrimTilt edits the recorded Tilt object in place), fitted again, fitted a   *)
+(* shallow copy in place (ShallowFit, which concerns the copy only), replaced the OPD.                 *)
 (* Ramps are integer steps (units of lambda/N per sample), so the effective state is exact.           *)
 EXTENDS Integers, Sequences, TLC, Json, IOUtils
 
@@ -15,15 +19,17 @@ Bases  == {0, 1}
 Slots  == {"P", "Q"}
 Bound  == 7                         \* |total ramp| stays below one sample (8 steps): no fix() tie is ever hit
 
-Absent == [base |-> -1, ramp |-> <<0, 0>>, tilt |-> <<0, 0>>]
-Fresh(b) == [base |-> b, ramp |-> <<0, 0>>, tilt |-> <<0, 0>>]
+\* nt = number of Tilt objects recorded on the plane (one per fit); tilt = their sum
+Absent == [base |-> -1, ramp |-> <<0, 0>>, tilt |-> <<0, 0>>, nt |-> 0]
+Fresh(b) == [base |-> b, ramp |-> <<0, 0>>, tilt |-> <<0, 0>>, nt |-> 0]
+MaxHeld == 2
 Plus(a, b) == <<a[1] + b[1], a[2] + b[2]>>
 Total(p) == Plus(p.ramp, p.tilt)
 Eff(p) == [base |-> p.base, total |-> Total(p)]
 InBound(v) == v[1] \in -Bound..Bound /\ v[2] \in -Bound..Bound
 
-VARIABLES pl, prog
-vars == <<pl, prog>>
+VARIABLES pl, prog, held        \* held: the effective states captured by the wavefronts the caller keeps
+vars == <<pl, prog, held>>
 
 Log(act, s, arg, exp) == Append(prog, [act |-> act, s |-> s, arg |-> arg, exp |-> exp])
 Present(s) == pl[s] # Absent
@@ -31,29 +37,48 @@ More == Len(prog) < MaxLen
 
 AddRamp(s, k) == /\ More /\ Present(s) /\ InBound(Plus(Total(pl[s]), k))
                  /\ pl' = [pl EXCEPT ![s].ramp = Plus(@, k)]
-                 /\ prog' = Log("AddRamp", s, k, <<>>)
+                 /\ prog' = Log("AddRamp", s, k, <<>>) /\ UNCHANGED held
 \* the same update made by writing INTO the plane's OPD array (no attribute assignment): same meaning
 AddRampIn(s, k) == /\ More /\ Present(s) /\ InBound(Plus(Total(pl[s]), k))
                    /\ pl' = [pl EXCEPT ![s].ramp = Plus(@, k)]
-                   /\ prog' = Log("AddRampInplace", s, k, <<>>)
+                   /\ prog' = Log("AddRampInplace", s, k, <<>>) /\ UNCHANGED held
 SetBase(s, b) == /\ More /\ Present(s)
                  /\ pl' = [pl EXCEPT ![s].base = b, ![s].ramp = <<0, 0>>]     \* recorded tilt stays recorded
-                 /\ prog' = Log("SetBase", s, b, <<>>)
+                 /\ prog' = Log("SetBase", s, b, <<>>) /\ UNCHANGED held
 FitIn(s)      == /\ More /\ Present(s)
-                 /\ pl' = [pl EXCEPT ![s].tilt = Plus(@, pl[s].ramp), ![s].ramp = <<0, 0>>]
-                 /\ prog' = Log("FitInplace", s, <<>>, <<>>)
+                 /\ pl' = [pl EXCEPT ![s].tilt = Plus(@, pl[s].ramp), ![s].ramp = <<0, 0>>, ![s].nt = @ + 1]
+                 /\ prog' = Log("FitInplace", s, <<>>, <<>>) /\ UNCHANGED held
 FitCopy(s, t) == /\ More /\ Present(s) /\ s # t
-                 /\ pl' = [pl EXCEPT ![t] = [pl[s] EXCEPT !.tilt = Plus(@, pl[s].ramp), !.ramp = <<0, 0>>]]
-                 /\ prog' = Log("FitCopy", s, t, <<>>)
+                 /\ pl' = [pl EXCEPT ![t] = [pl[s] EXCEPT !.tilt = Plus(@, pl[s].ramp), !.ramp = <<0, 0>>, !.nt = @ + 1]]
+                 /\ prog' = Log("FitCopy", s, t, <<>>) /\ UNCHANGED held
 Copy(s, t)    == /\ More /\ Present(s) /\ s # t
                  /\ pl' = [pl EXCEPT ![t] = pl[s]]
-                 /\ prog' = Log("Copy", s, t, <<>>)
+                 /\ prog' = Log("Copy", s, t, <<>>) /\ UNCHANGED held
 Observe(s)    == /\ More /\ Present(s)
-                 /\ UNCHANGED pl
+                 /\ UNCHANGED <<pl, held>>
                  /\ prog' = Log("Observe", s, <<>>, Eff(pl[s]))
+\* the caller keeps the wavefront that passed plane s now
+Pass(s)       == /\ More /\ Present(s) /\ Len(held) < MaxHeld
+                 /\ held' = Append(held, Eff(pl[s]))
+                 /\ UNCHANGED pl
+                 /\ prog' = Log("Pass", s, <<>>, <<>>)
+\* the caller trims the LAST Tilt object fit_tilt recorded on plane s, in place (plane.tilt[-1].x += ...)
+TrimTilt(s, k) == /\ More /\ Present(s) /\ pl[s].nt > 0 /\ InBound(Plus(Total(pl[s]), k))
+                  /\ pl' = [pl EXCEPT ![s].tilt = Plus(@, k)]
+                  /\ UNCHANGED held
+                  /\ prog' = Log("TrimTilt", s, k, <<>>)
+\* copy.copy(plane).fit_tilt(inplace=True): an edit of the shallow copy, which is then dropped
+ShallowFit(s) == /\ More /\ Present(s)
+                 /\ UNCHANGED <<pl, held>>
+                 /\ prog' = Log("ShallowFit", s, <<>>, <<>>)
+\* what a held wavefront shows: the plane as it was when the wavefront passed
+ObserveHeld(w) == /\ More /\ w \in 1..Len(held)
+                  /\ UNCHANGED <<pl, held>>
+                  /\ prog' = Log("ObserveHeld", "-", w, held[w])
 
 Init == /\ pl = [s \in Slots |-> IF s = "P" THEN Fresh(0) ELSE Absent]
         /\ prog = <<>>
+        /\ held = <<>>
 DoAddRamp == \E s \in Slots, k \in Ramps : AddRamp(s, k)
 DoAddRampIn == \E s \in Slots, k \in Ramps : AddRampIn(s, k)
 DoSetBase == \E s \in Slots, b \in Bases : SetBase(s, b)
@@ -61,7 +86,12 @@ DoFitIn   == \E s \in Slots : FitIn(s)
 DoFitCopy == \E s, t \in Slots : FitCopy(s, t)
 DoCopy    == \E s, t \in Slots : Copy(s, t)
 DoObserve == \E s \in Slots : Observe(s)
+DoPass    == \E s \in Slots : Pass(s)
+DoTrim    == \E s \in Slots, k \in Ramps : TrimTilt(s, k)
+DoShallowFit == \E s \in Slots : ShallowFit(s)
+DoObserveHeld == \E w \in 1..MaxHeld : ObserveHeld(w)
 Next == DoAddRamp \/ DoAddRampIn \/ DoSetBase \/ DoFitIn \/ DoFitCopy \/ DoCopy \/ DoObserve
+        \/ DoPass \/ DoTrim \/ DoShallowFit \/ DoObserveHeld
 Spec == Init /\ [][Next]_vars
 
 \* design-level properties
@@ -69,9 +99,11 @@ FitPreservesEffective == [][\A s \in Slots : (Present(s) /\ pl'[s].base = pl[s].
                                               /\ pl'[s].tilt = Plus(pl[s].tilt, pl[s].ramp)) => Eff(pl'[s]) = Eff(pl[s])]_vars
 Independence == [][\A s \in Slots : (Len(prog') > Len(prog) /\ prog'[Len(prog')].s # s /\ ~(prog'[Len(prog')].act \in {"FitCopy", "Copy"}
                                      /\ prog'[Len(prog')].arg = s)) => pl'[s] = pl[s]]_vars
-TypeOK == \A s \in Slots : pl[s] = Absent \/ (pl[s].base \in Bases /\ InBound(Total(pl[s])))
+TypeOK == \A s \in Slots : pl[s] = Absent \/ (pl[s].base \in Bases /\ InBound(Total(pl[s])) /\ pl[s].nt >= 0)
+\* a wavefront the caller holds never changes: whatever is done to planes afterwards, held entries stay what they were
+HeldFrozen == [][\A w \in 1..Len(held) : w <= Len(held') /\ held'[w] = held[w]]_vars
 
 \* complete behaviours for replay: the program and the effective state of every plane at its end
 Emit == (Len(prog) = MaxLen) =>
-            PrintT(<<"EMIT", ToJson([prog |-> prog, final |-> [s \in Slots |-> [present |-> Present(s), eff |-> Eff(pl[s])]]])>>)
+            PrintT(<<"EMIT", ToJson([prog |-> prog, final |-> [s \in Slots |-> [present |-> Present(s), eff |-> Eff(pl[s])]], held |-> held])>>)
 =============================================================================
